@@ -13,7 +13,7 @@ package check
 //@ spec holds(op t.ID, x mathint, y mathint) bool = (op == t.IDXBinaryNotEq && x != y) || (op == t.IDXBinaryLessThan && x < y) || (op == t.IDXBinaryLessEq && x <= y) || (op == t.IDXBinaryEqEq && x == y) || (op == t.IDXBinaryGreaterEq && x >= y) || (op == t.IDXBinaryGreaterThan && x > y)
 
 // factsHold(q): every fact the checker currently remembers is true in the state.
-//@ ghost factsHold(q *checker) bool
+//@ spec factsHold(q *checker) bool = q != nil && forall(k, 0, len(q.facts), q.facts[k] != nil && wval(q.facts[k]) == 1)
 
 //@ axiom zeroexpr: zeroExpr != nil && wval(zeroExpr) == 0
 
@@ -35,14 +35,34 @@ package check
 //@   trusted returns the named argument expression or nil; no semantic promise is used
 //@   pure
 
+// bcheckExpr: the per-expression range computation (bounds.go). Its soundness is
+// the core of C01 and is NOT proved here: assumed.
+//@ func (*checker).bcheckExpr
+//@   prop C01 C02
+//@   trusted soundness of the per-expression range computation (bounds.go) is assumed, not proved: on success the returned range is finite and, if the remembered facts are true, contains the expression's value
+//@   requires q != nil && n != nil
+//@   ensures implies(result1 == nil, result0[0] != nil && result0[1] != nil && implies(factsHold(q), inB(result0, wval(n))))
+//@   ensures unchanged(q.facts) && unchanged(mem(q.facts))
+//@   modifies *q
+
+// proveBinaryOp: nil means "lhs op rhs" follows from the facts and the ranges.
+//@ func (*checker).proveBinaryOp
+//@   prop C01 C02
+//@   requires q != nil && isCmp(op) && lhs != nil && rhs != nil && forall(k, 0, len(q.facts), q.facts[k] != nil)
+//@   ensures[sound] implies(factsHold(q) && result == nil, holds(op, wval(lhs), wval(rhs)))
+//@   ensures unchanged(q.facts) && unchanged(mem(q.facts))
+//@   modifies *q
+//@   loop 1 invariant -1 <= rangeindex && rangeindex < len(q.facts) && unchanged(q.facts) && unchanged(mem(q.facts))
+//@   loop 1 decreases len(q.facts) - rangeindex
+
 // proveReasonRequirement: if it returns nil then "lhs op rhs" follows from the
-// remembered facts (assumed here; it rests on proveBinaryOp and the bounds checker).
+// remembered facts.
 //@ func proveReasonRequirement
-//@   prop C02
-//@   trusted soundness of proveBinaryOp (facts + interval bounds) is assumed, not proved
-//@   pure
-//@   requires q != nil
-//@   ensures implies(factsHold(q) && result == nil && lhs != nil && rhs != nil, holds(op, wval(lhs), wval(rhs)))
+//@   prop C01 C02
+//@   requires q != nil && isCmp(op) && lhs != nil && rhs != nil && forall(k, 0, len(q.facts), q.facts[k] != nil)
+//@   ensures implies(factsHold(q) && result == nil, holds(op, wval(lhs), wval(rhs)))
+//@   ensures unchanged(q.facts) && unchanged(mem(q.facts))
+//@   modifies *q
 
 // Every axiom procedure in the generated table `reasons` (the function literals
 // of the package initialiser that take (q, n)): if it accepts, the asserted
@@ -51,8 +71,10 @@ package check
 //@ func init$*
 //@   prop C02
 //@   params q n
-//@   requires q != nil && n != nil
-//@   ensures[theorem] implies(factsHold(q) && result == nil, wval(condOf(n)) == 1)
+//@   requires q != nil && n != nil && forall(k, 0, len(q.facts), q.facts[k] != nil)
+//@   ensures[theorem] implies(old(factsHold(q)) && result == nil, wval(condOf(n)) == 1)
+//@   ensures unchanged(q.facts) && unchanged(mem(q.facts))
+//@   modifies *q
 
 // ---- C01 / C02: the fact-based prover's building blocks ----
 // Language semantics (assumed; the definition of the comparison operators and of
@@ -78,7 +100,7 @@ package check
 //@ func opImpliesOp
 //@   prop C01 C02
 //@   pure
-//@   ensures implies(result, forallm(x, forallm(y, implies(holds(op0, x, y), holds(op1, x, y)))))
+//@   ensures implies(result, forallm(x, forallm(y, implies(holds(op0, x, y), holds(op1, x, y))))) && implies(result && isCmp(op1), isCmp(op0))
 
 // proveBinaryOpConstValues: a true answer means the comparison holds for every
 // pair of values in the two ranges.
